@@ -203,6 +203,11 @@ def corr_ops(rng, n, rough):
 def cli_ops(rng, n, rough):
     ops = []
     today = [2026, 9, 29]
+    if not rough:
+        for pat, old, sv in [("{semver}", "1.0.0", "1.02.3"), ("{MAJOR}.{MINOR}.{PATCH}", "1.2.3", "01.3.0"), ("v{MAJOR}.{MINOR}", "v1.2", "v1.03"),
+                             ("{pycalver}", "v201712.0033-beta", "v201801.0034"), ("MAJOR.MINOR.PATCH", "1.0.0", "1.02.3")]:
+            ops.append({"op": "v1_cli_test", "version": old, "pattern": pat, "date_given": False, "date": today, "today": today, "set_version": sv,
+                        "major": False, "minor": False, "patch": False, "tag": None, "tag_num": False, "pin_date": False, "pin_increments": False})
     for _ in range(n):
         pat = rough_pattern(rng) if rough else doc_pattern(rng)
         d, vj = gen_record(rng)
@@ -219,6 +224,16 @@ def cli_ops(rng, n, rough):
             sv = rng.choice([v, v + ".post1", v + "x", "junk", mutate(rng, v)])
             if sv.startswith("-"):
                 sv = None
+        elif rng.random() < 0.15:
+            # a GREATER version written with a redundant leading zero in one number (`1.02.3`): what is announced must be the pattern's own
+            # rendering of it (D20, legacy branch of _normalize_set_version)
+            g = impl.v1_incr(v, pat, dict(fl, tag=None, patch=True), ymd(d2), today).get("ok") or impl.v1_incr(v, pat, dict(fl, tag=None, major=True), ymd(d2), today).get("ok")
+            if g:
+                import re as _re
+                spots = [m.start() for m in _re.finditer(r"(?<![0-9])[1-9]", g)]
+                if spots:
+                    k = rng.choice(spots)
+                    sv = g[:k] + "0" + g[k:]
         o = {"op": "v1_cli_test", "version": v, "pattern": pat, "date_given": date_given, "date": ymd(d2) if date_given else today, "today": today, "set_version": sv}
         o.update(fl)
         ops.append(o)
